@@ -4,6 +4,7 @@
 package main
 
 import (
+	"errors"
 	"bufio"
 	"context"
 	"fmt"
@@ -266,14 +267,31 @@ func runRun(t *toks, out *bufio.Writer) {
 	base := runtime.NumGoroutine()
 	var cancels []context.CancelFunc
 	for r := 0; r < nruns; r++ {
+		// in run mode a scheduled request with at = r >= 1 is raised between Run number r-1 and Run number r
+		if r > 0 {
+			for _, s := range pc.sched {
+				if s.at == r {
+					cpu.Interrupt = &z80.Interrupt{Type: z80.InterruptType(s.kind), Data: s.data}
+				}
+			}
+		}
 		ctx, cancel := context.WithCancel(context.Background())
-		cancels = append(cancels, cancel)
 		switch cancelMode {
 		case 1:
 			cancel()
 		case 2:
 			go func() { time.Sleep(time.Duration(ms) * time.Millisecond); cancel() }()
+		case 4:
+			// a context that carries a cancellation cause: Run must still return ctx.Err(), not the cause
+			cancel()
+			c4, cc := context.WithCancelCause(context.Background())
+			ctx, cancel = c4, func() { cc(errCause) }
+			go func() { time.Sleep(time.Duration(ms) * time.Millisecond); cc(errCause) }()
+		case 5:
+			cancel()
+			ctx, cancel = context.WithTimeoutCause(context.Background(), time.Duration(ms)*time.Millisecond, errCause)
 		}
+		cancels = append(cancels, cancel)
 		type res struct {
 			err   error
 			panic bool
@@ -314,7 +332,7 @@ func runRun(t *toks, out *bufio.Writer) {
 			}
 		}
 		el := time.Since(t0)
-		if cancelMode == 2 && el > time.Duration(ms+3000)*time.Millisecond {
+		if (cancelMode == 2 || cancelMode == 4 || cancelMode == 5) && el > time.Duration(ms+3000)*time.Millisecond {
 			late = 1
 		}
 		if cancelMode == 3 {
@@ -328,7 +346,7 @@ func runRun(t *toks, out *bufio.Writer) {
 		printState(out, fmt.Sprintf("%s.%d", pc.id, r), cpu, w)
 	}
 	// goroutines that outlive Run although its context is still live are leaks (the parent contexts are cancelled only now)
-	if cancelMode == 2 {
+	if cancelMode == 2 || cancelMode == 4 || cancelMode == 5 {
 		time.Sleep(time.Duration(ms+5) * time.Millisecond)
 	}
 	leak := 0
@@ -527,6 +545,8 @@ func runInject(t *toks, out *bufio.Writer) {
 	}
 	fmt.Fprintf(out, "%s ok %d\n", pc.id, n+1)
 }
+
+var errCause = errors.New("operator requested stop")
 
 type rng64 struct{ s uint64 }
 
